@@ -42,6 +42,11 @@ def main():
             if l.strip():
                 d = json.loads(l)
                 drop.add((d["property"], d["key"]))
+    # a `known` record whose (property, key) also has a `fixed` record is stale by construction (union merges of worker
+    # branches can bring such a line back): the defect was repaired, its return has to be reported
+    for r in rows():
+        if r.get("kind") == "fixed" and r.get("key"):
+            drop.add((r["property"], r["key"]))
     kept, n = [], 0
     for l in open(KF):
         if not l.strip():
